@@ -399,6 +399,9 @@ def constrained():
     out.append((dict(small, violating=[8, -1, 256]), 3))
     out.append((dict(T('OCTETSTRING', size=(1, 3)), violating=[b'', b'abcd']), b'ab'))
     out.append((dict(T('UTF8String', [('E', CTX, 2)], size=(0, 2)), violating=['abc']), 'a'))
+    # SIZE counts bits: lengths that are not a multiple of eight (the encoder pads them) and ones that span segments
+    out.append((dict(T('BITSTRING', size=(1, 4)), violating=['', '11111', '00000000']), '1111'))
+    out.append((dict(T('BITSTRING', [('I', CTX, 5)], size=(9, 17)), violating=['11111111', '1' * 18]), '10110011100011110'))
     lst = T('SEQUENCEOF', elem=T('INTEGER'), size=(1, 2))
     out.append((dict(lst, violating=[[], [1, 2, 3]]), [1, 2]))
     st = T('SETOF', [('I', CTX, 1)], elem=T('BOOLEAN'), size=(0, 1))
